@@ -5,6 +5,14 @@ import TflModel.Lemmas.Keypoints
 Model: `Tfl.Keypoints.computeKeypoints` over exact rationals. The rounding direction at an exact
 tie `m + 1/2` is an argument (`dirs`): float rounding of `np.linspace`/`np.interp` may resolve an
 exact tie either way, and every theorem holds for all directions.
+
+`Props/C18Helpers.lean` continues this file: the first / last value of `sortedValues` IS the clip
+bound or the data extreme (`sortedValues_head_clipMin`, `sortedValues_last_clipMax`,
+`sortedValues_head_dataMin`, `sortedValues_last_dataMax`), 'uniform' keypoints lie in the range
+(`uniform_within_range`), all clauses as one predicate (`Rules`, `compute_keypoints_rules`), the
+feature / label helpers (`feature_helper_rules`, `set_feature_keypoints_get`, `label_helper_rules`,
+`label_logits_rules`) and acceptance by `PWLCalibration` (`pwl_accepts_keypoints`,
+`compute_keypoints_accepted`).
 -/
 namespace Tfl.C18
 open Tfl Tfl.Keypoints
